@@ -34,7 +34,7 @@ NORMALISATIONS = [
     'visibility is widened to `pub`',
     '`&self` becomes `&mut self` when the unit says recv=mut (interior mutability made explicit)',
     'the return type `-> T` is named `-> (r: T)` so the contract can refer to it',
-    '`debug_assert!(e)` / `debug_assert!(e, msg..)` become Verus `assert(e)` obligations',
+    '`debug_assert!(e)` / `debug_assert!(e, msg..)` become `{ let c: bool = e; assert(c); }` -- a Verus proof OBLIGATION (the code\'s own internal assumptions are proved, not assumed)',
     '`self.verify_init(..)` statements are dropped (flag is part of wf)',
     'logging macros fail!/fatal_panic!/warn!/error!/debug!/trace!/info! are regenerated from '
     'iceoryx2-log/log/src/{fail,log}.rs of the current tree with the logging statements deleted '
@@ -124,7 +124,7 @@ def _split_debug_assert(body):
             elif c == ',' and depth == 0:
                 cut = k
                 break
-        out.append('assert(' + inner[:cut].strip() + ')')
+        out.append('{ let verif_debug_assert_cond: bool = ' + inner[:cut].strip() + '; assert(verif_debug_assert_cond); }')
         i = e
     out.append(body[i:])
     return ''.join(out)
